@@ -132,7 +132,7 @@ impl Path {
 
         let mut components = Vec::new();
 
-        for i in 0..self.components.len() - upward_moves {
+        for i in 0..self.components.len().saturating_sub(upward_moves) {
             components.push(self.components.get(i).unwrap().clone());
         }
 
